@@ -18,9 +18,9 @@ import (
 var setReadOnly = []string{"Has", "Len", "Copy", "Union", "Intersects", "Complement", "Equal", "String"}
 
 func checkC16(c *Check) {
-	c.Explain = "Decides only the last sentence of C16 ('no operation panics on any set, including the empty set, and none modifies its operands'), as two structural conditions on set/set.go's SSA: R-sentinel-guard — every dereference of a value loaded from <operand>.Head.Forward or <operand>.Tail.Backward (the two links that are nil exactly on the empty set) in the eight read-only methods lies only on feasible acyclic CFG paths whose branch facts imply that link is non-nil (directly, or through Len()≠0 with Len's summary 'returns 0 when Head.Forward==nil' derived from Len's own body); R-operand-pure — every store in those methods goes through a pointer whose origin is an allocation of the same call (NewSet/Copy results, &Node{} literals), and mutating methods are only called on such fresh receivers. NOT decided (value-level, out of reach of a sound static rule): membership, cardinality, union/intersection/complement arithmetic and extensional equality over arbitrary insertion histories; nil-safety of walks through *Node aliases (list-shape invariant)."
-	c.Assume = []string{"NewSet leaves Head.Forward and Tail.Backward nil and they are non-nil after the first insertion (checked: R-newset-shape)", "a non-tail list node has a non-nil Forward link (list-shape invariant of AddRange, value-level, not decided)"}
-	c.Trusted = []string{"go/ssa of golang.org/x/tools v0.50.0"}
+	c.Explain = "Three groups of rules on set/set.go. (1) R-set-semantics + R-order-invariant: the source of the set package is evaluated (E1 interpreter, nil dereference = panic) on every history of at most 3 Add/AddRange calls over the universe [0,4] (thorough: [0,6]) and on every pair of histories of at most 2 calls; Has on every point, Len, String, Copy (equal and independent), Complement(limit) for every limit covering the set (contents, Has, Len, double complement, receiver unchanged), Union, Intersects, Equal are compared with the corresponding set of integers. R-order-invariant is the structural condition that makes the small universe representative: outside Len/String the code only compares code points with each other or with 0, copies them and steps them by one, so behaviour depends only on the order-and-adjacency pattern of the values and every pattern for these history sizes occurs in the universe. (2) R-sentinel-guard — every dereference of a value loaded from <operand>.Head.Forward or <operand>.Tail.Backward (nil exactly on the empty set) in the read-only methods lies only on feasible CFG paths whose branch facts imply the link is non-nil (directly or through Len()≠0 with Len's summary derived from its body): this part holds for sets of any size. (3) R-operand-pure — every store in the read-only methods goes through a pointer whose origin is an allocation of the same call, mutating methods are only called on fresh receivers, returned sets are fresh: any size. NOT decided: histories with more than 3 insertions (list-walk induction over arbitrarily many intervals), arithmetic overflow at the int32 boundary (the interpreter computes in int64), inverted ranges (begin > end), sets reaching beyond the Complement limit."
+	c.Assume = []string{"NewSet leaves Head.Forward and Tail.Backward nil and they are non-nil after the first insertion (checked: R-newset-shape)", "a non-tail list node has a non-nil Forward link (list-shape invariant of AddRange; holds on every evaluated history, not decided beyond them)"}
+	c.Trusted = []string{"go/ssa of golang.org/x/tools v0.50.0", "interp.go (the Go-subset interpreter)"}
 	r := mustRepo(c)
 	if r == nil {
 		return
@@ -104,6 +104,7 @@ func checkC16(c *Check) {
 		operandPure(c, r, f, methods, newSet)
 	}
 	c.Floor("R-sentinel-guard", nDeref, 30)
+	setValueRules(c, r)
 }
 
 func accessPathLocal(v ssa.Value) string {
